@@ -24,6 +24,11 @@ CHECKS = {
          "The space in the bound (all nx,ny,nz <= MaxN, DX row lengths 1-3, 0-2 atoms, trailer on/off) is enumerated completely by TLC; each case is realised as files, converted by the real code (many conversions per process), parsed by an independent cube reader and judged by TLC against the spec's cube and the C18 clauses.",
          "Generated DX files follow APBS's layout; values compared at the printed 5 significant digits; file rendering and the cube parser are harness code.",
          "DESIGN.md 6/C18", ["Dx2Cube", "Dx2CubeTrace"]),
+ "C17": ("model_checking",
+         "TLA+ spec Psize (line loop + sizing steps in exact integer arithmetic): TLC exhaustive over all files in the bound x parameter sets; every file sized by the real psize.Psize/io.dump_apbs in both layouts; TLC trace validation (PsizeTrace); pipeline runs with --apbs-input",
+         "TLC checks GridUsable (boxes enclose every atom sphere and are centred, fine <= coarse, grid counts 32k+1 >= 33, memory split consistent) on every file <= MaxLen lines over atom and header/comment lines for two parameter sets; the real sizing of each file (fixed layout, whitespace layout, header lines removed) and the rendered APBS input are compared with the spec's result and judged by TLC, incl. HeaderLinesIgnored, LayoutIndependent, InputFileMatches; end-to-end runs check that the input names and is sized from the PQR just written.",
+         "Coordinates chosen so that the float arithmetic is exact (dyadic) or away from rounding points; cfac >= 1 and fadd >= 0; rendering of PQR lines and parsing of the .in file are harness code; proc-grid/focusing numbers (logarithms) are not modelled.",
+         "DESIGN.md 6/C17", ["Psize", "MC_Psize", "PsizeTrace"]),
 }
 
 NOT_YET = "check not built yet (build round in progress); planned per DESIGN.md section 6"
